@@ -22,6 +22,9 @@ int main(int argc, char** argv) {
   Args a(argc, argv);
   LOG.monitor = std::string(MON_NAME) + ":" + GN();
   srand((unsigned)a.seed);
+  // under valgrind long double is emulated with 64 bits: the self-check of the model (1e-15 thresholds) cannot pass there, and the
+  // monitors run under memcheck (C10) do not use the model for any verdict
+  if (a.get("noselfcheck") != "1")
   for (auto& e : RG().el) { std::string s = ref::selfCheck(e, 7); if (!s.empty()) { fprintf(stderr, "reference model self-check failed: %s\n", s.c_str()); return 2; } }
   try { runOnce(a); }
   catch (const std::exception& e) { LOG.viol(std::string("uncaught-exception/") + GN() + "/runOnce", 1, J().s("what", e.what()).str()); }
